@@ -1,2 +1,162 @@
-def plan(tier, seed):
-    return []
+"""C08, directory level: `db create` / `db reindex` refuse a page with syntax
+errors unless it is whitelisted, never index it as an empty or partial page, and
+index every note of clean pages.  Real CLI entry point; whitelist file and raw
+sqlite rows are read afterwards."""
+
+from __future__ import annotations
+
+import datetime as dt
+import shutil
+from pathlib import Path
+
+from zmon import db, harness
+from zmon.gen import damage as dmg
+from zmon.gen import page as pg
+from zmon.gen import zdir as zd
+from zmon.mon import listeners
+from zmon.mon.clock import frozen
+from zmon.res import Acc, rng_for
+
+TODAY = dt.date(2031, 3, 14)
+
+
+def plan(tier: str, seed: int) -> list[dict]:
+    n = 32 if tier == "quick" else 400
+    return [{"kind": "db", "idx": i, "seed": seed} for i in range(n)]
+
+
+def _broken_variant(rng, valid_text: str):
+    """-> (text, kind) where kind in {'flagged', 'noteless'}: a page the parser rejects."""
+    from zmon.props.c08 import count_tree_notes
+
+    for _ in range(40):
+        r = rng.random()
+        if r < 0.3:
+            t = rng.choice(["garbage without header\n", "# T\n- no blank line after header\n", "", "# T\n\nfree text line\n", "just words"])
+        else:
+            t, _ops = dmg.damage(valid_text, rng)
+        c = harness.compile_text(t.encode("utf-8", "surrogatepass"), name="probe.zo")
+        if c.exc is None and c.parser_errors:
+            tree_notes = count_tree_notes(listeners.FILE.tree) if listeners.FILE.tree is not None else 0
+            return t, ("flagged" if c.page.has_errors else "noteless"), tree_notes
+    return None, None, 0
+
+
+def _whitelist(root: Path) -> list[str]:
+    f = root / ".zorg" / "error_file_whitelist.txt"
+    return [l for l in f.read_text().split("\n") if l] if f.exists() else []
+
+
+def run_unit(unit: dict) -> dict:
+    from zmon.props.c08 import FINDING_NOTELESS
+
+    acc = Acc()
+    seed, idx = unit["seed"], unit["idx"]
+    rng = rng_for("C08db", seed, idx)
+    base = harness.fresh_dir("c08db")
+    root = base / "org"
+    root.mkdir()
+    with frozen(TODAY):
+        opts = pg.GenOpts(max_items=3, max_blocks=2, allow_mod_without_zid=False)
+        z = zd.gen_zdir(rng, opts, n_pages=rng.choice([2, 3, 4]))
+        z.write(root)
+        valid = {}
+        for rel in z.pages:
+            c = harness.compile_path(root, Path(rel))
+            if c.exc is not None or c.parser_errors:
+                acc.generator_invalid += 1
+                return acc.result()
+            valid[rel] = len(c.page.notes)
+        victim = rng.choice(sorted(z.pages))
+        good_text = (root / victim).read_text()
+        bad_text, kind, tree_notes = _broken_variant(rng, good_text)
+        if bad_text is None:
+            acc.not_judged += 1
+            return acc.result()
+        case = {"db": True, "seed": seed, "idx": idx, "victim": victim, "broken_kind": kind, "bad_text": bad_text[:600]}
+        fin = FINDING_NOTELESS if kind == "noteless" and tree_notes == 0 else None
+
+        def rows(page=None):
+            d = db.dump_index(root)
+            return d, [n for n in d.notes if page is None or n["page"] == page]
+
+        # ---- scenario A: broken page present from the start, no -f => refuse
+        (root / victim).write_bytes(bad_text.encode("utf-8", "surrogatepass"))
+        acc.evaluations += 1
+        acc.judged += 1
+        r = db.cli(root, "db", "create")
+        d, vr = rows(victim)
+        if r.rc == 0:
+            acc.violation(f"`db create` accepted {victim} although the parser reports syntax errors and it is not whitelisted ({kind})", case, cls="db create accepts a non-whitelisted broken page" + (" (no item reached)" if kind == "noteless" else ""), finding=fin)
+        if [p for p in d.pages if p["path"] == victim] or vr:
+            acc.violation(f"after `db create` without -f the index holds page row/notes of the broken {victim}: pages={[p for p in d.pages if p['path'] == victim]} notes={len(vr)}", case, cls="broken page indexed as empty or partial page" + (" (no item reached)" if kind == "noteless" else ""), finding=fin)
+        acc.sig(("A", kind, r.rc != 0))
+        # ---- scenario B: -f whitelists it; clean pages fully indexed
+        acc.evaluations += 1
+        acc.judged += 1
+        r = db.cli(root, "db", "create", "-f")
+        d, vr = rows(victim)
+        if r.rc != 0:
+            acc.violation(f"`db create -f` failed rc={r.rc} {r.err[-200:]}", case, cls="db create -f fails")
+        else:
+            wl = _whitelist(root)
+            if kind == "flagged" and victim not in wl:
+                acc.violation(f"`db create -f`: {victim} not in the whitelist {wl}", case, cls="whitelist not updated by -f")
+            if vr:
+                acc.violation(f"whitelisted broken page {victim} has {len(vr)} notes in the index", case, cls="broken page partially indexed")
+            pr = [p for p in d.pages if p["path"] == victim]
+            if kind == "flagged" and (len(pr) != 1 or not pr[0]["has_errors"]):
+                acc.violation(f"whitelisted broken page row: {pr}", case, cls="whitelisted page not recorded with has_errors")
+            for rel, n in valid.items():
+                if rel == victim:
+                    continue
+                got = len([x for x in d.notes if x["page"] == rel])
+                if got != n:
+                    acc.violation(f"clean page {rel}: {got} notes indexed, {n} compiled", case, cls="clean page not fully indexed")
+            # C: a later create without -f accepts the whitelisted page
+            r2 = db.cli(root, "db", "create")
+            if r2.rc != 0 and kind == "flagged":
+                acc.violation(f"`db create` refuses a whitelisted page rc={r2.rc}", case, cls="whitelisted page refused")
+            acc.sig(("B", kind, len(valid)))
+            # D: repair => reindex indexes its notes and drops it from the whitelist
+            acc.evaluations += 1
+            acc.judged += 1
+            (root / victim).write_text(good_text)
+            r3 = db.cli(root, "db", "reindex")
+            d, vr = rows(victim)
+            if r3.rc != 0:
+                acc.violation(f"`db reindex` after repairing {victim} failed rc={r3.rc} {r3.err[-200:]}", case, cls="reindex fails after repair")
+            else:
+                if len(vr) != valid[victim]:
+                    acc.violation(f"repaired page {victim}: {len(vr)} notes indexed, {valid[victim]} compiled", case, cls="repaired page not fully indexed", finding=None)
+                if victim in _whitelist(root):
+                    acc.violation(f"repaired page {victim} still whitelisted", case, cls="repaired page stays whitelisted")
+                acc.sig(("D", kind))
+                # E: break the now valid, indexed page => reindex must refuse; old rows all-or-nothing
+                acc.evaluations += 1
+                acc.judged += 1
+                good_now = (root / victim).read_text()
+                before_rows = len(vr)
+                (root / victim).write_bytes(bad_text.encode("utf-8", "surrogatepass"))
+                r4 = db.cli(root, "db", "reindex")
+                d, vr = rows(victim)
+                if r4.rc == 0:
+                    acc.violation(f"`db reindex` accepted the newly broken {victim} ({kind})", case, cls="db reindex accepts a non-whitelisted broken page" + (" (no item reached)" if kind == "noteless" else ""), finding=fin)
+                    pr = [p for p in d.pages if p["path"] == victim]
+                    if pr and not vr and before_rows:
+                        acc.violation(f"after reindex the broken {victim} is indexed as an empty page", case, cls="broken page indexed as empty or partial page" + (" (no item reached)" if kind == "noteless" else ""), finding=fin)
+                else:
+                    pr = [p for p in d.pages if p["path"] == victim]
+                    if pr and pr[0]["has_errors"]:
+                        acc.violation(f"refused page {victim} is nevertheless recorded in the index: {pr}", case, cls="refused page recorded in the index")
+                    if 0 < len(vr) < before_rows:
+                        acc.violation(f"after the refused reindex the index holds {len(vr)} of the page's {before_rows} previous notes", case, cls="partial page left in the index after a refused reindex")
+                acc.sig(("E", kind, r4.rc != 0))
+        acc.sample({"victim": victim, "broken_kind": kind, "bad_text": bad_text[:200]}, cap=2)
+    shutil.rmtree(base, ignore_errors=True)
+    acc.merge_counts(harness.COUNTERS.take())
+    return acc.result()
+
+
+def replay(case: dict) -> dict:
+    return run_unit({"seed": case["seed"], "idx": case["idx"]})
